@@ -1,5 +1,7 @@
 // included by src/bin/arena.rs — the state-aware generator / executor (compiled once, non-generic)
 
+include!("family.rs");
+
 fn gen_size(ctx: &mut Ctx, remaining: usize) -> usize {
     let remaining = remaining.min(60_000);
     // overflow-class requests: valid layouts that no allocator can satisfy / whose chunk size overflows
@@ -167,6 +169,7 @@ fn exec(ctx: &mut Ctx, sc: &mut dyn ScopeOps, orig: Option<&dyn ScopeOps>, depth
         let weights = [
             p.alloc, p.dealloc, p.grow, p.shrink, p.typed, p.prepare, p.reserve, p.scope, p.checkpoint, p.claim, p.aligned, p.try_with, p.write,
             p.split,
+            family_weight(&p),
         ];
         let total: u64 = weights.iter().sum();
         let mut r = ctx.rng.below(total);
@@ -192,7 +195,8 @@ fn exec(ctx: &mut Ctx, sc: &mut dyn ScopeOps, orig: Option<&dyn ScopeOps>, depth
             10 => op_aligned(ctx, sc, orig, depth),
             11 => op_try_with(ctx, sc),
             12 => op_write(ctx, sc),
-            _ => op_split(ctx, sc),
+            13 => op_split(ctx, sc),
+            _ => op_family(ctx, sc),
         }
         // ---- C13: the allocated byte count decreases only through the permitted operations
         let after_alloc = sc.x_dump().typed.allocated;
